@@ -270,12 +270,15 @@ prop("C15", level="proof",
 
 prop("C16", level="proof",
      claim="from_utf8 is parametric in the validator: with core::str::from_utf8 replaced by an arbitrary Result, Ok => text == input, Err => "
-           "the validator's error, exactly one validator call (unbounded length); lossy / UTF-16 decoders compared with String's on all "
-           "inputs of <= 3 bytes / <= 2 code units (bounded, thorough tier); their loop bodies are push/push_str under contract.",
+           "the validator's error, exactly one validator call (unbounded length). from_utf8_lossy / from_utf16 / from_utf16_lossy: the real "
+           "loops (utf8_chunks, decode_utf16, collect) against decoding written from the Unicode definitions (maximal-subpart replacement; "
+           "surrogate pairing) on ALL inputs of <= 3 bytes / <= 3 code units, with push_str / from_str / with_capacity under contract "
+           "(ghost text) - bounded.",
      functions=["LeanString::from_utf8", "LeanString::from_utf8_lossy", "LeanString::from_utf16", "LeanString::from_utf16_lossy"],
-     verus=[], trust=["String::from_utf8 delegates to the same core validator"],
-     bounded_notes=[{"what": "from_utf8_lossy: all byte strings of length <= 3; from_utf16{,_lossy}: all u16 strings of length <= 2 (thorough tier only)"}],
-     not_covered=["long inputs to the lossy/UTF-16 decoders beyond the bound"])
+     verus=[], trust=["String::from_utf8 delegates to the same core validator", "String's lossy / UTF-16 decoders implement the Unicode "
+                      "definitions the specifications are written from (documented behaviour)"],
+     bounded_notes=[{"what": "from_utf8_lossy: all byte strings of length <= 3; from_utf16{,_lossy}: all u16 strings of length <= 3"}],
+     not_covered=["inputs to the lossy/UTF-16 decoders longer than the bound (e.g. behaviour that depends on block sizes)"])
 
 prop("C17", level="proof",
      claim="as_str()/as_bytes() are exactly (text pointer, len) of the ghost view for every representation (unbounded); ==, !=, cmp, "
